@@ -19,9 +19,13 @@ namespace Fastor {
 //----------------------------------------------------------------------------------------------------------//
 template<typename T, typename ABI>
 FASTOR_INLINE SIMDVector<T,ABI> min(const SIMDVector<T,ABI> &a, const SIMDVector<T,ABI> &b) {
-    SIMDVector<T,ABI> out;
-    for (FASTOR_INDEX i=0; i<SIMDVector<T,ABI>::Size; i++) { ((T*)&out)[i] = std::min(((T*)&a)[i],((T*)&b)[i]); }
-    return out;
+    // go through arrays: the lanes of the integer vector types cannot be accessed through a T*
+    T val_a[SIMDVector<T,ABI>::Size];
+    T val_b[SIMDVector<T,ABI>::Size];
+    a.store(val_a,false);
+    b.store(val_b,false);
+    for (FASTOR_INDEX i=0; i<SIMDVector<T,ABI>::Size; i++) { val_a[i] = std::min(val_a[i],val_b[i]); }
+    return SIMDVector<T,ABI>(val_a,false);
 }
 template<typename T, typename ABI>
 FASTOR_INLINE SIMDVector<T,ABI> min(const SIMDVector<T,ABI> &a, T b) {
@@ -100,9 +104,13 @@ FASTOR_INLINE SIMDVector<double,simd_abi::avx512> min(const SIMDVector<double,si
 //----------------------------------------------------------------------------------------------------------//
 template<typename T, typename ABI>
 FASTOR_INLINE SIMDVector<T,ABI> max(const SIMDVector<T,ABI> &a, const SIMDVector<T,ABI> &b) {
-    SIMDVector<T,ABI> out;
-    for (FASTOR_INDEX i=0; i<SIMDVector<T,ABI>::Size; i++) { ((T*)&out)[i] = std::max(((T*)&a)[i],((T*)&b)[i]); }
-    return out;
+    // go through arrays: the lanes of the integer vector types cannot be accessed through a T*
+    T val_a[SIMDVector<T,ABI>::Size];
+    T val_b[SIMDVector<T,ABI>::Size];
+    a.store(val_a,false);
+    b.store(val_b,false);
+    for (FASTOR_INDEX i=0; i<SIMDVector<T,ABI>::Size; i++) { val_a[i] = std::max(val_a[i],val_b[i]); }
+    return SIMDVector<T,ABI>(val_a,false);
 }
 template<typename T, typename ABI>
 FASTOR_INLINE SIMDVector<T,ABI> max(const SIMDVector<T,ABI> &a, T b) {
